@@ -212,7 +212,8 @@ def run(ctx):
                         conds = [te for (te, v, a) in controlling_atoms(cf, s.bb) if not (isinstance(te, tuple) and te[0] == "discr" and "next(" in fmt_desc(te))]
                         good = ups == {"weight"} and not other and not conds
                         okw = good if n_w == 1 else (okw and good)
-            ctx.require(okw and "edges" in efs, "R-C15-4", "edges|set_all_edge_weights", "every edge's weight is assigned exactly the `weight` parameter, unconditionally", "the new weight is not simply the parameter", loc_str(c.span))
+            ctx.require(okw and "edges" in efs, "R-C15-4", "edges|set_all_edge_weights", "every edge's weight is assigned exactly the `weight` parameter, unconditionally",
+                        ("set_all_edge_weights no longer builds its edges by cloning the stored edge and assigning `.weight` (no such assignment found): whatever else the stored edge carries -- its attributes -- is not carried over, so the result is not the source graph with new weights" if n_w == 0 else "the new weight is not simply the parameter"), loc_str(c.span))
         elif name == "to_single_edges":
             # the body that builds the collapsed edge: a helper (collapse_edges), a closure, or to_single_edges itself
             ce = None
